@@ -2058,3 +2058,23 @@ package ion
 //@ modifies nothing
 //@ ensures[C07,C15] len(dateStr) < 5 ==> err != nil
 //@ safe[C06,C15]
+
+// processImports (C09): the system table comes first, every import is kept in order, and the
+// offsets are the running sum of the imports' max_ids (each import occupies exactly its
+// declared max_id slots).
+//@ func processImports
+//@ split returns
+//@ requires len(imports) < 1<<30
+//@ requires forall i int :: 0 <= i && i < len(imports) ==> imports[i] != nil
+//@ invariant loop0 [idx_ int, maxID uint64, offsets []uint64, imps []SharedSymbolTable] -1 <= idx_ && idx_ < len(imps) && len(offsets) == len(imps) && len(imps) >= 1
+//@ invariant loop0 [idx_ int, maxID uint64, offsets []uint64, imps []SharedSymbolTable] idx_ >= 0 ==> offsets[0] == 0
+//@ invariant loop0 [idx_ int, maxID uint64, offsets []uint64, imps []SharedSymbolTable] idx_ >= 0 ==> maxID == offsets[idx_]+imps[idx_].MaxID()
+//@ invariant loop0 [idx_ int, maxID uint64, offsets []uint64, imps []SharedSymbolTable] idx_ == -1 ==> maxID == 0
+//@ invariant loop0 [idx_ int, offsets []uint64, imps []SharedSymbolTable] forall k int :: 0 <= k && k < idx_ ==> offsets[k+1] == offsets[k]+imps[k].MaxID()
+//@ invariant loop0 [imps []SharedSymbolTable] forall k int :: 0 <= k && k < len(imps) ==> imps[k] != nil
+//@ modifies nothing
+//@ ensures[C09] len(result0) >= 1 && len(result1) == len(result0) && result1[0] == 0
+//@ ensures[C09] forall i int :: 0 <= i && i < len(result0) ==> result0[i] != nil
+//@ ensures[C09] forall i int :: 0 <= i && i < len(result0)-1 ==> result1[i+1] == result1[i]+result0[i].MaxID()
+//@ ensures[C09] result2 == result1[len(result1)-1]+result0[len(result0)-1].MaxID()
+//@ safe[C06,C09]
